@@ -2504,6 +2504,10 @@ class MutableGitIndexTree(mutabletree.MutableTree, GitTree):
                     raise errors.BzrMoveFailedError(
                         from_rel, to_rel, NoSuchFile(to_rel)
                     ) from err
+                except OSError as err:
+                    raise errors.BzrMoveFailedError(
+                        from_rel, to_rel, err.strerror
+                    ) from err
             if kind != "directory":
                 (index, _from_index_path) = self._lookup_index(from_path)
                 with contextlib.suppress(KeyError):
